@@ -133,6 +133,7 @@ pub trait FloatLike: Copy + PartialOrd + fmt::Display + fmt::Debug {
     fn isnan(self) -> bool;
     fn lt0(self) -> bool;
     fn gt50(self) -> bool;
+    fn recip1(self) -> Self;
 }
 macro_rules! impl_floatlike {
     ($($t:ty),*) => {$(
@@ -144,6 +145,7 @@ macro_rules! impl_floatlike {
             #[inline] fn isnan(self) -> bool { self.is_nan() }
             #[inline] fn lt0(self) -> bool { self < 0.0 }
             #[inline] fn gt50(self) -> bool { self > 50.0 }
+            #[inline] fn recip1(self) -> Self { 1.0 / self }
         }
     )*};
 }
@@ -178,6 +180,11 @@ pub fn check_float<T: FloatLike>(v: &T) -> Result<(), NumErr> {
     } else {
         Ok(())
     }
+}
+/// NOT idempotent; maps the finite value 0.0 to an infinity
+#[inline]
+pub fn recip<T: FloatLike>(v: T) -> T {
+    v.recip1()
 }
 pub const fn c_clamp01_f64(v: f64) -> f64 {
     if v < 0.0 {
@@ -246,6 +253,9 @@ pub static RE_DIGITS: std::sync::LazyLock<regex::Regex> =
     std::sync::LazyLock::new(|| regex::Regex::new("^[0-9]+$").unwrap());
 pub const RE_DIGITS_SRC: &str = "^[0-9]+$";
 pub const RE_LOWER_SRC: &str = "^[a-z ]*$";
+/// NOT anchored: matches when the value merely CONTAINS a digit run
+pub const RE_HASDIGIT_SRC: &str = "[0-9]+";
+pub static RE_HASDIGIT: std::sync::LazyLock<regex::Regex> = std::sync::LazyLock::new(|| regex::Regex::new(RE_HASDIGIT_SRC).unwrap());
 pub static RE_LOWER: std::sync::LazyLock<regex::Regex> =
     std::sync::LazyLock::new(|| regex::Regex::new(RE_LOWER_SRC).unwrap());
 
